@@ -108,7 +108,7 @@ def spec_range(spec):
 # ------------------------------------------------------------------------------------------------ states
 
 def sector_vectors(chain, L, rng, nmax=2):
-    """Seeded complex random unit vectors, one per charge sector (the `nmax` largest sectors), as dense vectors."""
+    """`nmax` seeded complex random unit vectors (dense), each inside one of the two largest charge sectors."""
     site = site_of(chain)
     q = np.asarray(site.leg.to_qflat())
     if q.shape[1] == 0:
